@@ -1,6 +1,9 @@
 (* Model of aws/aws_sign.c.  The four public functions are modelled as INTERPRETATIONS of the
-   asprintf format strings, argument lists, strftime formats and HMAC chain that the translator
-   regenerates from the C text (Gen/Repo_aws.v); only the order of the steps is written by hand. *)
+   asprintf format strings, argument lists, strftime formats and buffer sizes, time() error value,
+   SHA256_Buf argument expressions and HMAC chain that the translator regenerates from the C text
+   (Gen/Repo_aws.v).  Written by hand: the order of the steps, the three hexify(x, y, 32) calls, and
+   the meaning given to the accepted length expressions (len_expr_ok, sha_call_ok).
+   Result None = the C function returns -1 / NULL. *)
 From Coq Require Import NArith ZArith List Bool String.
 From LCP Require Import Base.CheckedMem Gen.Repo_codec Gen.Repo_aws Util.Hex Aws.AwsBase Aws.SigV4Spec.
 Import ListNotations.
@@ -42,6 +45,15 @@ Definition len_expr_ok (a : farg) (lenexpr : bytes) : bool :=
   | ALit l => beq_bytes lenexpr (b "strlen(""" ++ l ++ b """)")
   end.
 
+(* the single SHA256_Buf(data, len, out) call of a function must be the expected one; the accepted
+   length expressions denote the whole object: strlen(creq) for the string creq, and
+   `body ? bodylen : 0` for the (body, bodylen) pair (the body, or nothing when body is NULL) *)
+Definition sha_call_ok (calls : list (bytes * bytes * bytes)) (data lenexpr out : bytes) : bool :=
+  match calls with
+  | [(d, l, o)] => beq_bytes d data && beq_bytes l lenexpr && beq_bytes o out
+  | _ => false
+  end.
+
 Section Hashes.
   Variable sha256 : bytes -> bytes.
   Variable hmac : bytes -> bytes -> bytes.
@@ -72,7 +84,8 @@ Section Hashes.
       | Some e1 =>
         match run_hmacs e1 [h1; h2; h3; h4] with
         | Some e2 =>
-          match hexify_str (sha256 creq) with
+          match (if sha_call_ok sha_calls_aws_sign (b "creq") (b "strlen(creq)") (b "h_creq")
+                 then hexify_str (sha256 creq) else None) with
           | Some hh =>
             match run_asprintf ((b "hhex_creq", hh) :: e2) f_sts with
             | Some e3 =>
@@ -95,19 +108,27 @@ Section Hashes.
     | _, _ => None
     end.
 
-  (* the common prologue: one time() sample, two strftime calls, both fed by gmtime_r (UTC) *)
-  Definition timestamps (ncalls : N) (tfns : list bytes) (fmts : list (bytes * N * bytes)) (t : Z) : option env :=
+  (* the common prologue: one time() sample (failure when it equals the error value), two strftime
+     calls, both fed by gmtime_r (UTC); either strftime returning 0 is a failure.  [yp] prints %Y. *)
+  Definition timestamps_core (yp : Z -> bytes) (ncalls : N) (tfns : list bytes)
+             (fmts : list (bytes * N * bytes)) (tmv : tm) : option env :=
     if (ncalls =? 1) && forallb (fun f => beq_bytes f (b "gmtime_r")) tfns
        && (N.of_nat (List.length tfns) =? 2) then
       match fmts with
       | [(d1, m1, f1); (d2, m2, f2)] =>
-        match strftime m1 f1 (gmtime t), strftime m2 f2 (gmtime t) with
+        match strftime_gen yp m1 f1 tmv, strftime_gen yp m2 f2 tmv with
         | Some s1, Some s2 => Some [(d2, s2); (d1, s1)]
         | _, _ => None
         end
       | _ => None
       end
     else None.
+
+  Definition timestamps_gen (yp : Z -> bytes) (ncalls : N) (terr : Z) (tfns : list bytes)
+             (fmts : list (bytes * N * bytes)) (t : Z) : option env :=
+    if (t =? terr)%Z then None else timestamps_core yp ncalls tfns fmts (gmtime t).
+
+  Definition timestamps := timestamps_gen year_chars.
 
   (* call aws_sign with the regenerated actual-argument list; binds the 7th argument's name *)
   Definition call_sign (e : env) (sargs : list farg) : option env :=
@@ -126,11 +147,13 @@ Section Hashes.
 
   (* shape shared by the three *_headers functions: returns (x_amz_content_sha256, x_amz_date, authorization) *)
   Definition headers_variant (fmts : list (bytes * bytes * list farg)) (sargs : list farg)
-             (ncalls : N) (tfns : list bytes) (tfmts : list (bytes * N * bytes))
+             (ncalls : N) (terr : Z) (tfns : list bytes) (tfmts : list (bytes * N * bytes))
+             (shacalls : list (bytes * bytes * bytes))
              (inputs : env) (body : option bytes) (t : Z) : option (bytes * bytes * bytes) :=
-    match timestamps ncalls tfns tfmts t, fmts with
+    match timestamps ncalls terr tfns tfmts t, fmts with
     | Some te, [f_creq; f_auth] =>
-      match hexify_str (sha256 (match body with Some x => x | None => [] end)) with
+      match (if sha_call_ok shacalls (b "body") (b "body?bodylen:0") (b "hbuf")
+             then hexify_str (sha256 (match body with Some x => x | None => [] end)) else None) with
       | Some ch =>
         let e0 := (b "content_sha256", ch) :: te ++ inputs in
         match run_asprintf e0 f_creq with
@@ -157,28 +180,32 @@ Section Hashes.
   Definition aws_sign_s3_headers_m (key_id key_secret region method bucket path : bytes)
              (body : option bytes) (t : Z) : option (bytes * bytes * bytes) :=
     headers_variant fmts_aws_sign_s3_headers signargs_aws_sign_s3_headers
-                    time_calls_aws_sign_s3_headers timefns_aws_sign_s3_headers strftime_aws_sign_s3_headers
+                    time_calls_aws_sign_s3_headers time_err_aws_sign_s3_headers timefns_aws_sign_s3_headers
+                    strftime_aws_sign_s3_headers sha_calls_aws_sign_s3_headers
                     [(b "key_id", key_id); (b "key_secret", key_secret); (b "region", region);
                      (b "method", method); (b "bucket", bucket); (b "path", path)] body t.
 
   Definition aws_sign_svc_headers_m (key_id key_secret region svc : bytes)
              (body : option bytes) (t : Z) : option (bytes * bytes * bytes) :=
     headers_variant fmts_aws_sign_svc_headers signargs_aws_sign_svc_headers
-                    time_calls_aws_sign_svc_headers timefns_aws_sign_svc_headers strftime_aws_sign_svc_headers
+                    time_calls_aws_sign_svc_headers time_err_aws_sign_svc_headers timefns_aws_sign_svc_headers
+                    strftime_aws_sign_svc_headers sha_calls_aws_sign_svc_headers
                     [(b "key_id", key_id); (b "key_secret", key_secret); (b "region", region);
                      (b "svc", svc)] body t.
 
   Definition aws_sign_dynamodb_headers_m (key_id key_secret region op : bytes)
              (body : option bytes) (t : Z) : option (bytes * bytes * bytes) :=
     headers_variant fmts_aws_sign_dynamodb_headers signargs_aws_sign_dynamodb_headers
-                    time_calls_aws_sign_dynamodb_headers timefns_aws_sign_dynamodb_headers strftime_aws_sign_dynamodb_headers
+                    time_calls_aws_sign_dynamodb_headers time_err_aws_sign_dynamodb_headers timefns_aws_sign_dynamodb_headers
+                    strftime_aws_sign_dynamodb_headers sha_calls_aws_sign_dynamodb_headers
                     [(b "key_id", key_id); (b "key_secret", key_secret); (b "region", region);
                      (b "op", op)] body t.
 
   (* char * aws_sign_s3_querystr(key_id, key_secret, region, method, bucket, path, expiry) *)
   Definition aws_sign_s3_querystr_m (key_id key_secret region method bucket path : bytes)
              (expiry : Z) (t : Z) : option bytes :=
-    match timestamps time_calls_aws_sign_s3_querystr timefns_aws_sign_s3_querystr strftime_aws_sign_s3_querystr t,
+    match timestamps time_calls_aws_sign_s3_querystr time_err_aws_sign_s3_querystr
+                     timefns_aws_sign_s3_querystr strftime_aws_sign_s3_querystr t,
           fmts_aws_sign_s3_querystr with
     | Some te, [f_creq; f_query] =>
       let e0 := te ++ [(b "key_id", key_id); (b "key_secret", key_secret); (b "region", region);
